@@ -126,4 +126,23 @@ CHECKS = {
         note="Which alternative of a concrete pipe wins, and evaluation "
              "order inside one tal:attributes list, are value-level / not "
              "claimed.  Known finding: ':=' has no handler."),
+    "C07": dict(
+        technique="path rules over the attribute merge (index-map coherence, "
+                  "case folding on both sides, replace-in-place vs append); "
+                  "abstract interpretation of the node-choice function "
+                  "(condition/leaf table); emission-tree and fragment-path "
+                  "rules for the attribute emitters",
+        text="Decides that every index recorded in the name->index map is "
+             "the index of the entry just stored, that names are case-folded "
+             "at every store and lookup, that a dynamic value replaces the "
+             "static entry in place while new names are appended, that the "
+             "node kind per entry follows the table static / interpolated / "
+             "boolean / dict (excluding later names) / substitution with the "
+             "static text as default, that attributes are written only if "
+             "not None and not overridden by a later dict, that emit_bool "
+             "maps marker/true/false to default/name/nothing on all three "
+             "paths, and that HTML boolean defaults apply only outside XML "
+             "mode without an explicit set.",
+        note="Concrete override outcomes for concrete dict contents are not "
+             "computed; escaping of the values is C02."),
 }
